@@ -27,9 +27,9 @@ type lab struct {
 	wpath string
 	base  string
 	seq   int64
-	// reference: uninterrupted run of a delivery order, by order string
-	refMu sync.Mutex
-	refs  map[string]*expResult
+	// number of durable writes of an uninterrupted delivery order (by order string)
+	wMu    sync.Mutex
+	wCount map[string]int
 	// counters
 	children int64
 }
@@ -63,7 +63,7 @@ func newLab(w *worldFile, tag string) (*lab, error) {
 	if err != nil {
 		return nil, err
 	}
-	l := &lab{root: root, self: self, w: w, wpath: filepath.Join(root, "world.json"), base: filepath.Join(root, "base"), refs: map[string]*expResult{}}
+	l := &lab{root: root, self: self, w: w, wpath: filepath.Join(root, "world.json"), base: filepath.Join(root, "base"), wCount: map[string]int{}}
 	if err := w.save(l.wpath); err != nil {
 		return nil, err
 	}
@@ -166,16 +166,22 @@ func readLog(path string) ([]logEv, error) {
 	return out, sc.Err()
 }
 
-type expResult struct {
-	Order   []int       `json:"order"`
-	CrashAt int         `json:"crashAt"`
-	Cont    []int       `json:"cont"`
+// segment: one life of the node: start on the data directory, deliver order, stop at durable write
+// crashAt of this life (-1: no crash, the node is closed properly).
+type segment struct {
+	Order   []int  `json:"order"`
+	CrashAt int    `json:"crashAt"`
+	Corrupt string `json:"corrupt,omitempty"` // self-test: damage the stopped node's databases first
+	Tip     int    `json:"tip,omitempty"`
+}
+
+type segResult struct {
+	Seg     segment     `json:"seg"`
 	Crashed bool        `json:"crashed"`
-	Log1    []logEv     `json:"log1"` // the history child
-	Next    *writeRec   `json:"next"` // the write that was about to start at the crash
-	Died    string      `json:"died,omitempty"`
-	Log2    []logEv     `json:"log2"` // the restarted child
-	Inspect *inspectOut `json:"inspect"`
+	Log     []logEv     `json:"log"`
+	Next    *writeRec   `json:"next"`           // the write that was about to start at the crash
+	Died    string      `json:"died,omitempty"` // the process died by itself (panic in a goroutine of the node)
+	Out     *inspectOut `json:"out"`            // observations: at start (Obs1) and, without crash, at the end (Obs2)
 }
 
 // writes returns the counted writes of a child log (phase: after the marker p, "" = all).
@@ -219,9 +225,9 @@ func copyDir(src, dst string) error {
 	})
 }
 
-// run performs one experiment. crashAt = -1: no crash (the reference: the history child closes
-// the node properly, the second child still restarts it).
-func (l *lab) run(order []int, crashAt int, cont []int) (*expResult, error) {
+// run performs one experiment: the segments run one after the other, each in a process of its own, on
+// one copy of the base data directory.
+func (l *lab) run(segs []segment) ([]*segResult, error) {
 	id := atomic.AddInt64(&l.seq, 1)
 	dir := filepath.Join(l.root, fmt.Sprintf("x%d", id))
 	defer os.RemoveAll(dir)
@@ -229,55 +235,75 @@ func (l *lab) run(order []int, crashAt int, cont []int) (*expResult, error) {
 	if err := copyDir(l.base, data); err != nil {
 		return nil, err
 	}
-	r := &expResult{Order: order, CrashAt: crashAt, Cont: cont}
-	log1 := filepath.Join(dir, "run.log")
-	rc, out := l.child("child-run", map[string]string{"dir": data, "world": l.wpath, "order": orderString(order),
-		"crashat": fmt.Sprint(crashAt), "log": log1})
-	evs, err := readLog(log1)
-	if err != nil {
-		return nil, fmt.Errorf("history child (rc %d): %v: %s", rc, err, tail(out, 1500))
-	}
-	r.Log1 = evs
-	switch rc {
-	case crashExit:
-		r.Crashed = true
-		for _, e := range evs {
-			if e.Ev == "Crash" {
-				r.Next = e.Next
+	var out []*segResult
+	for i, sg := range segs {
+		r := &segResult{Seg: sg}
+		out = append(out, r)
+		if sg.Corrupt != "" && sg.Corrupt != "none" {
+			if rc, txt := l.child("child-corrupt", map[string]string{"dir": data, "world": l.wpath, "kind": sg.Corrupt, "tip": fmt.Sprint(sg.Tip)}); rc != 0 {
+				return nil, fmt.Errorf("corrupting (%s) failed: %s", sg.Corrupt, tail(txt, 1500))
 			}
 		}
-		if r.Next == nil {
-			return nil, fmt.Errorf("history child exited with the crash code without a crash record")
+		logp := filepath.Join(dir, fmt.Sprintf("seg%d.log", i))
+		outp := filepath.Join(dir, fmt.Sprintf("seg%d.json", i))
+		rc, txt := l.child("child-inspect", map[string]string{"dir": data, "world": l.wpath, "order": orderString(sg.Order),
+			"crashat": fmt.Sprint(sg.CrashAt), "log": logp, "out": outp})
+		r.Log, _ = readLog(logp)
+		if raw, err := os.ReadFile(outp); err == nil {
+			var ins inspectOut
+			if err := json.Unmarshal(raw, &ins); err != nil {
+				return nil, err
+			}
+			r.Out = &ins
 		}
-	case 0:
-		if crashAt >= 0 {
-			// the history performs fewer writes than crashAt: not a crash experiment
-			r.Crashed = false
+		switch {
+		case rc == crashExit:
+			r.Crashed = true
+			for _, e := range r.Log {
+				if e.Ev == "Crash" {
+					r.Next = e.Next
+				}
+			}
+			if r.Next == nil || r.Out == nil {
+				return nil, fmt.Errorf("segment %d exited with the crash code without a crash record / start observation", i)
+			}
+		case rc == 0:
+			if r.Out == nil {
+				return nil, fmt.Errorf("segment %d: no result file: %s", i, tail(txt, 1500))
+			}
+		case rc == 2 && strings.Contains(txt, "child-inspect:"):
+			return nil, fmt.Errorf("segment %d failed: %s", i, tail(txt, 3000))
+		default:
+			// the node died by itself (a panic in one of its goroutines kills the process): an observation
+			r.Died = fmt.Sprintf("rc=%d: %s", rc, tail(txt, 3000))
+			return out, nil
 		}
-	default:
-		return nil, fmt.Errorf("history child failed (rc %d): %s", rc, tail(out, 3000))
+		if r.Out.OpenErr != "" {
+			return out, nil // the node does not start any more: nothing can follow
+		}
 	}
-	log2 := filepath.Join(dir, "inspect.log")
-	outp := filepath.Join(dir, "inspect.json")
-	rc, out = l.child("child-inspect", map[string]string{"dir": data, "world": l.wpath, "order": orderString(cont), "log": log2, "out": outp})
-	r.Log2, _ = readLog(log2)
-	if rc != 0 {
-		// the restarted node died (a panic in one of its goroutines kills the process): an observation,
-		// reported with the output; harness-level failures exit with 2 and a "child-inspect:" line
-		if rc == 2 && strings.Contains(out, "child-inspect:") {
-			return nil, fmt.Errorf("restart child failed: %s", tail(out, 3000))
-		}
-		r.Died = fmt.Sprintf("rc=%d: %s", rc, tail(out, 3000))
-		return r, nil
+	return out, nil
+}
+
+// writeCount: the number of durable writes the order performs on the base node without a crash.
+func (l *lab) writeCount(order []int) (int, error) {
+	key := orderString(order)
+	l.wMu.Lock()
+	if n, ok := l.wCount[key]; ok {
+		l.wMu.Unlock()
+		return n, nil
 	}
-	raw, err := os.ReadFile(outp)
+	l.wMu.Unlock()
+	rs, err := l.run([]segment{{Order: order, CrashAt: -1}})
 	if err != nil {
-		return nil, err
+		return 0, err
 	}
-	var io inspectOut
-	if err := json.Unmarshal(raw, &io); err != nil {
-		return nil, err
+	if rs[0].Died != "" || rs[0].Out == nil || rs[0].Out.Obs2 == nil {
+		return 0, fmt.Errorf("uninterrupted run of %s failed: %s %v", key, rs[0].Died, rs[0].Out)
 	}
-	r.Inspect = &io
-	return r, nil
+	n := len(writes(rs[0].Log))
+	l.wMu.Lock()
+	l.wCount[key] = n
+	l.wMu.Unlock()
+	return n, nil
 }
